@@ -104,6 +104,51 @@ theorem alphaBeta_refused (c : Comp σ π) {L1 L2 : Limits} {N : Int} (h : SoftH
       simp only [abRest, abort_none h.stop2, if_true]
       rfl
 
+/-! the same for a node entered with the abort flag already raised (any options `L`) -/
+
+theorem abort_of_aborted (L : Limits) (s : St σ) (ha : s.aborted = true) : abort L s = (true, s) := by
+  unfold abort; rw [if_pos ha]
+
+theorem incrementNodes_ps (L : Limits) (s : St σ) : (incrementNodes L s).ps = s.ps := by
+  unfold incrementNodes
+  split
+  · rfl
+  · split <;> rfl
+
+/-- A quiescence node entered with the abort flag raised returns `Inv` and leaves `ps` alone. -/
+theorem quiescence_aborted (c : Comp σ π) (L : Limits) (fuel : Nat) (a b : Score) (ply : Int) (s : St σ)
+    (ha : s.aborted = true) :
+    (quiescence c L fuel a b ply s).1 = Inv ∧ (quiescence c L fuel a b ply s).2.ps = s.ps ∧
+      (quiescence c L fuel a b ply s).2.aborted = true := by
+  cases fuel with
+  | zero => exact ⟨rfl, rfl, rfl⟩
+  | succ fuel =>
+    have hi : (incrementNodes L s).aborted = true := (incrementNodes_frame L s).mono.aborted_mono ha
+    rw [quiescence_succ]
+    simp only [qRest, abort_of_aborted L _ hi, if_true]
+    exact ⟨trivial, incrementNodes_ps L s, hi⟩
+
+/-- An alphaBeta node entered with the abort flag raised returns `Inv` and leaves `ps` alone:
+    "it is important that we check abort *before* updating any of the persistent states". -/
+theorem alphaBeta_aborted (c : Comp σ π) (L : Limits) (fuel : Nat) (a b : Score) (d ply : Int) (nt : NodeType) (s : St σ)
+    (ha : s.aborted = true) :
+    (alphaBeta c L fuel a b d ply nt s).1 = Inv ∧ (alphaBeta c L fuel a b d ply nt s).2.ps = s.ps ∧
+      (alphaBeta c L fuel a b d ply nt s).2.aborted = true := by
+  cases fuel with
+  | zero => exact ⟨rfl, rfl, rfl⟩
+  | succ fuel =>
+    rw [alphaBeta_succ]
+    split
+    · exact quiescence_aborted c L (fuel + 1) a b ply (s.setPv (s.pv.setNull ply.toNat)) ha
+    · have hi : (incrementNodes L (s.setPv (s.pv.setNull ply.toNat))).aborted = true :=
+        (incrementNodes_frame L _).mono.aborted_mono ha
+      have hps := incrementNodes_ps L (s.setPv (s.pv.setNull ply.toNat))
+      generalize incrementNodes L (s.setPv (s.pv.setNull ply.toNat)) = s1 at hi hps ⊢
+      have hab : abort L { s1 with abNodes := s1.abNodes + 1 } = (true, { s1 with abNodes := s1.abNodes + 1 }) :=
+        abort_of_aborted L _ hi
+      simp only [abRest, hab, if_true]
+      exact ⟨trivial, hps, hi⟩
+
 theorem aspiration_refused (c : Comp σ π) {L1 L2 : Limits} {N : Int} (h : SoftHard L1 L2 N) (hN : N ≠ -1)
     (fuel : Nat) (idD : Int) (n : Nat) (alpha beta factor : Score) (s : St σ) (hge : N ≤ s.nodes)
     (hp : s.pondering = false) :
